@@ -310,12 +310,14 @@ def assess_with(ar: Arena, followup: T.List[str]) -> T.Optional[T.Dict[str, T.An
                 return {'symptom': 'unusable-build-fails-after-followup', 'tail': buf.getvalue()[-600:]}
         except mn.BuildFailure as e:
             return {'symptom': 'unusable-build-fails-after-followup', 'tail': str(e)}
-    for f in ('intro-buildoptions.json', 'meson-info.json'):
+    import glob as _glob
+    names = {'intro-buildoptions.json', 'meson-info.json'} | {os.path.basename(p) for p in _glob.glob(os.path.join(ar.b, 'meson-info', '*.json'))}
+    for f in sorted(names):
         try:
             with open(os.path.join(ar.b, 'meson-info', f), encoding='utf-8') as fh:
                 json.load(fh)
         except (OSError, ValueError) as e:
-            return {'symptom': 'unusable-intro-unreadable', 'file': f, 'detail': str(e)}
+            return {'symptom': 'unusable-intro-unreadable', 'file': 'tmp' if 'tmp' in f else f, 'detail': str(e)[:200]}
     if os.environ.get('VERIF_TIER') != 'thorough':
         return None
     # the directory must also accept the next ordinary command
